@@ -6,6 +6,7 @@ CONSTANTS
   BATCH = 32
   CHUNK = 48000
   MaxBlockSize = 7788
+  TimeoutPerChunk = TRUE
   Streams = {}
 POSTCONDITION Accepted
 CHECK_DEADLOCK FALSE
